@@ -1,4 +1,5 @@
 import Hertz.Proofs.HeaderWrite
+import Hertz.Proofs.HeaderApi
 /-!
 # C05 — header-setting APIs cannot be used to inject lines into a message
 
@@ -70,5 +71,155 @@ example : kept [(strCookie, [97, 61, 98, 13, 10, 88, 58, 32, 49])] = [(strCookie
   decide +kernel
 
 example : kept [([88, 13, 10, 89], [118])] = [] := by decide +kernel
+
+/-!
+## Extension X05: from API CALLS to the wire
+
+`Model/HeaderApi.lean` models the public mutators (`Set`, `Add`, `SetCanonical`, `Del`, the special-name dispatch
+`setSpecialHeader`, key normalisation on/off, `SetCookie`/`DelCookie`, `Trailer().Set/Add`, `SetContentLength`, `SetMethod`,
+`SetRequestURI`, … and `RequestContext.Header/Redirect/SetCookie/SetContentType`, `Cookie.AppendBytes`) as functions on the
+state; a program is a list of calls on the zero object.  The check replays every generated program on the real objects and
+compares the state after EVERY call and the final bytes.
+
+TODO-OPEN (kept as per-case checks in `Driver/C05Api.lean`): an `expectedFields` that
+does not go through the state machine (a second, list-of-fields semantics of the calls); `URI.Parse` never producing CR/LF in
+`PathOriginal`/`queryString` (so that through `Request.SetRequestURI` alone no line break reaches the request line).
+-/
+open Hertz.HA
+
+instance (b : Bytes) : Decidable (NoCRLF b) := inferInstanceAs (Decidable (∀ x ∈ b, x ≠ 13 ∧ x ≠ 10))
+
+/-- For EVERY program of request-header API calls with arbitrary byte arguments: the serialised head, read by the strict
+line splitter, is exactly one start line plus one line per field of `expectedReqFields program`, then `rest` untouched.
+(The start line itself: `request_line_single_*` below.) -/
+theorem api_program_head_lines (p : List ReqCall) (rest : Bytes) (h : NoCRLF (reqStartLine p)) :
+    parseHead (reqWire p ++ rest) = some (reqStartLine p, expectedReqFields p, rest) :=
+  request_head_lines _ rest h
+
+/-- the same for every program of response-header / `RequestContext` calls; `sl` = `consts.StatusLine`, `date` = the server date -/
+theorem api_program_head_lines_resp (sl : Int → Bytes) (date : Bytes) (p : List RespCall) (rest : Bytes)
+    (h : NoCRLF (sl (runResp p).status)) :
+    parseHead (respWire sl date p ++ rest) = some (sl (runResp p).status, expectedRespFields sl date p, rest) :=
+  response_head_lines _ rest h
+
+/-- no CR, LF (or colon in a name) inside any of these lines -/
+theorem api_program_lines_clean (p : List ReqCall) :
+    ∀ kv ∈ expectedReqFields p, (∀ x ∈ kv.1, x ≠ 13 ∧ x ≠ 10 ∧ x ≠ 58) ∧ (∀ x ∈ kv.2, x ≠ 13 ∧ x ≠ 10) :=
+  kept_fields_clean _
+
+theorem api_program_lines_clean_resp (sl : Int → Bytes) (date : Bytes) (p : List RespCall) :
+    ∀ kv ∈ expectedRespFields sl date p, (∀ x ∈ kv.1, x ≠ 13 ∧ x ≠ 10 ∧ x ≠ 58) ∧ (∀ x ∈ kv.2, x ≠ 13 ∧ x ≠ 10) :=
+  kept_fields_clean _
+
+/-- every field name on the wire is one of the fixed special names or a key some call of the program passed (as given, or
+normalised by `NormalizeHeaderKey`) -/
+theorem fields_only_from_calls (p : List ReqCall) :
+    ∀ kv ∈ expectedReqFields p, kv.1 ∈ reqFixedNames ∨ ∃ c ∈ p, kv.1 ∈ reqCallKeys c :=
+  req_fields_only_from_calls p
+
+theorem fields_only_from_calls_resp (sl : Int → Bytes) (date : Bytes) (p : List RespCall) :
+    ∀ kv ∈ expectedRespFields sl date p, kv.1 ∈ respFixedNames ∨ ∃ c ∈ p, kv.1 ∈ respCallKeys c :=
+  resp_fields_only_from_calls sl date p
+
+/-- never more fields than calls: each call adds at most one entry (`h`, or a response cookie); besides these the serialisers
+write at most seven lines (User-Agent, Host, Content-Type, Content-Length, Trailer, Cookie, Connection / Server, Date,
+Content-Type, Content-Encoding, Content-Length, Trailer, Connection) -/
+theorem never_more_fields_than_calls (p : List ReqCall) : (expectedReqFields p).length ≤ p.length + 7 :=
+  req_fields_count p
+
+theorem never_more_fields_than_calls_resp (sl : Int → Bytes) (date : Bytes) (p : List RespCall) :
+    (expectedRespFields sl date p).length ≤ p.length + 7 :=
+  resp_fields_count sl date p
+
+/-- the trailer block written after a chunked body, for the trailer object reached by any program (`Trailer().Set/Add`,
+`Set("Trailer", …)`): reads back as exactly the kept trailer fields -/
+theorem api_program_trailer_lines (p : List ReqCall) (rest : Bytes) :
+    fields ((kept (runReq p).trailer).length + 1) (trailerBytes (runReq p).trailer ++ rest) = some (kept (runReq p).trailer, rest) :=
+  trailer_lines _ rest
+
+/-- method and request URI of the request line are the defaults or the argument of a `SetMethod` / `SetRequestURI` call of
+the program: no other header API can touch the request line -/
+theorem request_line_only_from_setters (p : List ReqCall) :
+    reqStartLine p = requestLine (runReq p).method (runReq p).uri ∧
+    ((runReq p).method = [] ∨ ReqCall.setMethod (runReq p).method ∈ p) ∧
+    ((runReq p).uri = [] ∨ ReqCall.setRequestURI (runReq p).uri ∈ p) :=
+  ⟨rfl, runReqFrom_line p p {} (fun _ h => h) (Or.inl rfl) (Or.inl rfl)⟩
+
+/-- FALSE as stated for every input: `SetMethod("GET /x HTTP/1.1\r\nX:")` puts a line break into the request line
+(genuine defect, known finding `start-line-raw`) … -/
+theorem request_line_single_fails_at :
+    ¬ NoCRLF (reqStartLine [.setMethod [71, 69, 84, 32, 47, 120, 32, 72, 84, 84, 80, 47, 49, 46, 49, 13, 10, 88, 58]]) := by
+  decide
+
+/-- … and so does `SetRequestURI("/a\r\nX: 1")` -/
+theorem request_line_single_fails_at_uri :
+    ¬ NoCRLF (reqStartLine [.setRequestURI [47, 97, 13, 10, 88, 58, 32, 49]]) := by
+  decide
+
+/-- the request line has exactly two SP and no CR/LF when the last `SetMethod` / `SetRequestURI` arguments have no SP, CR, LF -/
+theorem request_line_single_partial (p : List ReqCall) (hm : Clean3 (runReq p).method) (hu : Clean3 (runReq p).uri) :
+    (reqStartLine p).count 32 = 2 ∧ NoCRLF (reqStartLine p) :=
+  requestLine_single hm hu
+
+/-- EXACTLY these inputs: the line is well formed iff both arguments are free of SP, CR, LF -/
+theorem request_line_single_exactly (p : List ReqCall) :
+    ((reqStartLine p).count 32 = 2 ∧ NoCRLF (reqStartLine p)) ↔ (Clean3 (runReq p).method ∧ Clean3 (runReq p).uri) :=
+  ⟨requestLine_single_conv, fun h => requestLine_single h.1 h.2⟩
+
+/-- `req.Write` takes the target from `URI.RequestURI()`.  FALSE for every URI state: `URI.SetQueryString("a\r\nb")` … -/
+theorem request_target_fails_at :
+    ¬ Clean3 (Target.requestURI { path := [47, 97], queryString := [97, 13, 10, 98] }) := by
+  decide +kernel
+
+/-- … the quoted path and the serialised query arguments never contain SP, CR, LF; the two parts copied verbatim are the
+only way in: `PathOriginal` under `DisablePathNormalizing`, the query string while `QueryArgs()` has not been used -/
+theorem request_target_partial (u : Target) (hp : u.disablePathNormalizing = true → Clean3 u.pathOriginal)
+    (hq : u.parsedQueryArgs = false → Clean3 u.queryString) : Clean3 u.requestURI :=
+  target_clean3 u hp hq
+
+/-- the request line `req.Write` writes (method, `URI.RequestURI()`) -/
+theorem request_line_written_partial (m : Bytes) (u : Target) (hm : Clean3 m)
+    (hp : u.disablePathNormalizing = true → Clean3 u.pathOriginal) (hq : u.parsedQueryArgs = false → Clean3 u.queryString) :
+    (requestLine m u.requestURI).count 32 = 2 ∧ NoCRLF (requestLine m u.requestURI) :=
+  requestLine_single hm (target_clean3 u hp hq)
+
+/-- `Cookie.AppendBytes` with arbitrary key, value, domain, path, expiry and flags: the `Set-Cookie` line is ONE line of the
+strict splitter, its content the cookie bytes with CR/LF turned into SP -/
+theorem cookie_line_clean (c : Uri.CookieE) (rest : Bytes) :
+    crlfLine (headerLine (strSetCookie, Uri.appendCookieE c) ++ rest) =
+      some (strSetCookie ++ strColonSpace ++ newlineToSpace (Uri.appendCookieE c), rest) ∧
+    NoCRLF (strSetCookie ++ strColonSpace ++ newlineToSpace (Uri.appendCookieE c)) := by
+  refine ⟨setCookie_line c rest, ?_⟩
+  have hname : ∀ x ∈ strSetCookie ++ strColonSpace, x ≠ 13 ∧ x ≠ 10 := by decide
+  intro x hx
+  rcases List.mem_append.mp hx with h | h
+  · exact hname x h
+  · exact newlineToSpace_clean _ x h
+
+/-- non-vacuity: `Add("conNECTion", "x\r\ny")`, `Set("x-a", "1")`, `SetCookie("a", "b\r\nX: 1")`: three fields, the raw
+`Add` key kept (the special-header path does not normalise), CR/LF neutralised -/
+example : expectedReqFields [.add [99, 111, 110, 78, 69, 67, 84, 105, 111, 110] [120, 13, 10, 121], .set [120, 45, 97] [49],
+                            .setCookie [97] [98, 13, 10, 88, 58, 32, 49]] =
+    [([99, 111, 110, 78, 69, 67, 84, 105, 111, 110], [120, 32, 32, 121]), ([88, 45, 65], [49]),
+     (strCookie, [97, 61, 98, 32, 32, 88, 58, 32, 49])] := by
+  decide +kernel
+
+/-- non-vacuity: `Set("X\r\nY", "v")` is dropped, `Redirect(302, "/a\r\nX: 1")` gives one Location line -/
+example : expectedRespFields (fun _ => [72]) [68] [.set [88, 13, 10, 89] [118], .setNoDefaultDate true, .ctxRedirect 302 [47, 97, 13, 10, 88, 58, 32, 49]] =
+    [(strLocation, [47, 97, 32, 32, 88, 58, 32, 49])] := by
+  decide +kernel
+
+example : (reqStartLine [.setMethod [80, 85, 84], .setRequestURI [47, 120]]).count 32 = 2 := by decide
+
+/-- non-vacuity of the count bound: one call, two fields (the default Content-Type of a POST) -/
+example : (expectedReqFields [.setMethod [80, 79, 83, 84], .set [88] [49]]).length = 2 := by decide +kernel
+
+/-- non-vacuity: `Trailer().Set("Content-Length", "1")` is refused, `Trailer().Add("x-t", "a\r\nb")` kept and neutralised -/
+example : kept (runReq [.trailerSet strContentLength [49], .trailerAdd [120, 45, 116] [97, 13, 10, 98]]).trailer = [([88, 45, 84], [97, 32, 32, 98])] := by
+  decide +kernel
+
+example : Clean3 (Target.requestURI { path := [47, 97, 32, 13], parsedQueryArgs := true,
+                                      queryArgs := [{ key := [107, 13, 10], value := [32], noValue := false }] }) := by
+  decide +kernel
 
 end Hertz.Props.C05
